@@ -1,5 +1,5 @@
 (* Parser from the harness's abstract trace files to the Coq trace alphabet (Spec/Trace.v). *)
-open Conv
+open Cnv
 module L = Stdlib.List
 module S = Stdlib.String
 
